@@ -6,6 +6,7 @@ import (
 	"encoding/binary"
 	"fmt"
 	"math/rand"
+	"runtime"
 	"testing"
 	"time"
 
@@ -126,6 +127,7 @@ func TestVerif_C05(t *testing.T) {
 		}
 	}
 	c05Wraps(res)
+	c05TeardownRace(res)
 }
 
 func c05Scenario(res *vResult, rng *rand.Rand, up4 bool, ending, prefix string, desc map[string]interface{}, idx int) {
@@ -608,4 +610,164 @@ func c05Wraps(res *vResult) {
 			}
 		}()
 	}
+}
+
+// c05TeardownRace: a session request is in flight (its datagram has been read, the handler is about to take the
+// association's handler lock) at the moment the association is torn down. Whichever of the two gets the lock first, nothing
+// of the session may survive the association. The window between "datagram read" and "handler lock taken" is a few
+// instructions wide in production; the harness widens it with the code's own locks: it holds handlerMu (so the receive
+// goroutine parks on it with the request in hand) and hbMu (so Shutdown() parks right after it has closed the shutdown
+// channel), then releases both - in an order and on a number of Ps drawn per trial - so that both orders of acquisition
+// occur. No verdict depends on which order occurred.
+func c05TeardownRace(res *vResult) {
+	trials := vEnv.pick(40, 1200)
+	for t := 0; t < trials; t++ {
+		idx := 9100000 + t
+		if !vEnv.mine(idx) {
+			continue
+		}
+		rng := vEnv.rng("c05race", idx)
+		up4 := t%2 == 1
+		procs := []int{1, 1, 1, 2, 4, 16}[rng.Intn(6)]
+		order := rng.Intn(3) // 0: handler lock first, then hb lock; 1: the reverse; 2: with a yield in between
+		withLive := rng.Intn(2) == 0
+		kind := []string{"establishment", "modification-create"}[rng.Intn(2)]
+		if up4 {
+			kind = "establishment" // UP4 does not create rules by modification
+		}
+		desc := map[string]interface{}{"up4": up4, "gomaxprocs": procs, "unlock_order": order, "live_session_before": withLive, "in_flight": kind}
+		res.begin(idx, fmt.Sprintf("c05 teardown race up4=%v procs=%d order=%d %s", up4, procs, order, kind), desc)
+		c05RaceOnce(res, rng, up4, procs, order, withLive, kind, desc, idx)
+		res.eval(1)
+	}
+}
+
+func c05RaceOnce(res *vResult, rng *rand.Rand, up4 bool, procs, order int, withLive bool, kind string, desc map[string]interface{}, idx int) {
+	o := vDefaultOpts(up4, vEnv.addr(1))
+	o.UEAlloc, o.UEPool = true, "10.63.0.0/24"
+	a, err := vStartAgent(o)
+	if err != nil {
+		res.inconclusive("agent start: " + err.Error())
+		return
+	}
+	defer a.stop(vStopWatchdog)
+	p, err := vNewPeer(vEnv.addr(2), o.N4)
+	if err != nil {
+		res.inconclusive("peer: " + err.Error())
+		return
+	}
+	defer p.close()
+	if c01Request(p, p.assocSetup(1), 1) == nil {
+		res.inconclusive("association setup unanswered")
+		return
+	}
+	before := c05Occupancy(a)
+	tablesBefore := 0
+	if up4 {
+		tablesBefore = len(a.p4.snapshot().Entries)
+	}
+	mk := func(seq uint32, n int) vEstSpec {
+		e := c10Session(seq, uint64(0x5100+n), 50000+idx%2000*4+n)
+		e.PDRs[0].Choose = true
+		e.PDRs[0].UEFlag, e.PDRs[0].UEIP = 0x04, ""
+		e.PDRs[1].UEFlag, e.PDRs[1].UEIP = 0x04, ""
+		return e
+	}
+	var up uint64
+	if withLive || kind == "modification-create" {
+		m := c01Request(p, p.establish(mk(11, 1)), 11)
+		if m == nil || vDecodeReply(m).Cause != ie.CauseRequestAccepted {
+			res.inconclusive("teardown race: the first establishment was not accepted")
+			return
+		}
+		up = c01UPSEID(m)
+	}
+	pc := a.conn(p.local)
+	if pc == nil {
+		res.inconclusive("teardown race: association object not found")
+		return
+	}
+	var inflight []byte
+	if kind == "establishment" {
+		inflight = p.establish(mk(12, 2))
+	} else {
+		// a modification that adds a downlink PDR with a UE address to allocate... kept simple: a new uplink PDR with a
+		// UP-chosen F-TEID and a FAR of its own
+		np := mk(0, 1).PDRs[0]
+		np.ID, np.Prec, np.FAR = 7, 60, 7
+		np.SDF = "permit out udp from 10.7.7.0/24 777 to assigned"
+		nf := mk(0, 1).FARs[0]
+		nf.ID = 7
+		inflight = p.modify(vModSpec{Seq: 12, SEID: up, CrPDR: []vPDRSpec{np}, CrFAR: []vFARSpec{nf}})
+	}
+	// --- widen the window with the code's own locks
+	pc.handlerMu.Lock()
+	pc.hbMu.Lock()
+	p.send(inflight)
+	time.Sleep(time.Duration(2+rng.Intn(4)) * time.Millisecond) // the receive goroutine reads the datagram and parks on handlerMu
+	old := runtime.GOMAXPROCS(procs)
+	done := make(chan struct{})
+	go func() { pc.Shutdown(); close(done) }()
+	time.Sleep(2 * time.Millisecond) // Shutdown closes the shutdown channel and parks on hbMu
+	switch order {
+	case 0:
+		pc.handlerMu.Unlock()
+		pc.hbMu.Unlock()
+	case 1:
+		pc.hbMu.Unlock()
+		pc.handlerMu.Unlock()
+	default:
+		pc.handlerMu.Unlock()
+		runtime.Gosched()
+		pc.hbMu.Unlock()
+	}
+	ended := false
+	select {
+	case <-done:
+		ended = true
+	case <-time.After(20 * time.Second):
+	}
+	runtime.GOMAXPROCS(old)
+	if !ended {
+		res.inconclusive("teardown race: Shutdown did not return within 20 s")
+		return
+	}
+	// was the in-flight request answered? (answered = its handler got the lock before the teardown did)
+	answered := false
+	for _, m := range p.drain(60 * time.Millisecond) {
+		if m.Sequence() == 12 {
+			answered = true
+		}
+	}
+	// (on a tree where the property holds the request is dropped in either order of acquisition - the shutdown channel
+	// is closed before either gets the lock - so the two orders cannot be told apart from outside; the trial parameters
+	// that steer the order are what the evidence counts)
+	if answered {
+		res.event("teardown_race_in_flight_request_answered", 1)
+	} else {
+		res.event("teardown_race_in_flight_request_dropped", 1)
+	}
+	res.distinct(fmt.Sprintf("race/up4=%v/%s/procs=%d/unlock-order=%d/live=%v", up4, kind, procs, order, withLive))
+	desc["in_flight_answered"] = answered
+	vWaitUntil(5*time.Second, func() bool { return a.conn(p.local) == nil })
+	time.Sleep(30 * time.Millisecond)
+	after := c05Occupancy(a)
+	w := map[string]interface{}{"scenario": desc, "before": before, "after": after}
+	who := "request dropped"
+	if answered {
+		who = "request answered"
+	}
+	if up4 {
+		if n := len(a.p4.snapshot().Entries); n != tablesBefore {
+			res.violate("C05.R6", fmt.Sprintf("up4-entries-left teardown-race %s %s", kind, who), fmt.Sprintf("a Session %s was in flight when the association was torn down (%s): %d table entries more than before the sessions are still installed", kind, who, n-tablesBefore), w)
+		}
+		a.p4.takeC16()
+	} else if sn := a.bess.snapshot(); !sn.empty() {
+		res.violate("C05.R6", fmt.Sprintf("bess-entries-left teardown-race %s %s", kind, who), fmt.Sprintf("a Session %s was in flight when the association was torn down (%s): the datapath still holds %s", kind, who, sn), w)
+	}
+	for _, d := range c05Diff(before, after) {
+		key := d[:indexOfSpace(d)]
+		res.violate("C05.R6", fmt.Sprintf("%s not-reclaimed teardown-race %s %s", key, kind, who), fmt.Sprintf("a Session %s was in flight when the association was torn down (%s): %s", kind, who, d), w)
+	}
+	res.event("occupancy_comparisons", 1)
 }
